@@ -37,3 +37,9 @@ add('C10', 'exploration', 'deviation-bounded exhaustive enumeration of grammar d
 add('C11', 'exploration', 'deviation-bounded exhaustive enumeration of respellings (whitespace, keyword-inner whitespace, keyword case, uniform styles) of grammar derivations and of scripts',
     'For every seed derivation and derivations within d deviations, every respelling with up to d choices (one gap, one multi-word keyword, one keyword case, or one of 10 uniform styles) is parsed and its shape (statement count, types, node classes, leaf types) compared with the base spelling; plus every pair/triple of plain and procedural statements under every spelling of the whitespace after each semicolon. Exhaustive within d.',
     _E2, 'DESIGN.md 4/C11')
+add('C12', 'exploration', 'exhaustive enumeration of the full product of identifier spellings x quoting x qualifier x alias x whitespace x context',
+    'The complete product (names incl. non-ASCII and escaped quotes x 3 quotings x 5 qualifiers x 8 alias forms x 4 whitespace spellings x 20 syntactic contexts x neighbour items) is parsed and the five accessors of the Identifier covering the written reference are compared with the written parts. Exhaustive (full product, both tiers).',
+    'Trusted: CPython; the product dimensions in checks/c12.py as the space; the period is written without blanks.', 'DESIGN.md 4/C12')
+add('C13', 'exploration', 'exhaustive enumeration of six full products (WHERE extent, lists, calls, CASE, comparisons, typed literals) with ground truth from construction',
+    'Six full products whose expected node texts are known from how each input was built; Where / IdentifierList.get_identifiers / Function.get_parameters / Case.get_cases / Comparison.left,right / TypedLiteral are compared with the written parts on every case. Exhaustive (full products).',
+    'Trusted: CPython; the item, condition, operand and argument forms listed in checks/c13.py as the grammar.', 'DESIGN.md 4/C13')
